@@ -218,7 +218,7 @@ func init() {
 	})
 	addSpec(&Spec{ID: "C05", Title: "parquetgen never emits silently wrong code", Level: "translation_validation",
 		Rule: "programs = every struct shape of the bounded grammar (ordered forests of {leaf, group} x {required, optional, repeated}, depth <= 3, leaf types round-robin over the 8 primitives): " +
-			"quick all 1209 shapes with <= 4 nodes; thorough all 9471 with <= 5 nodes plus a fixed sample of 2000 with 6-8 nodes; each program is generated twice (determinism), compiled, and validated on its inputs: " +
+			"quick all 1209 shapes with <= 4 nodes plus, per primitive type, the 24 shapes with <= 2 nodes whose leaves all have that type; thorough all 9471 with <= 5 nodes, the single-type shapes with <= 3 nodes and a fixed sample of 2000 with 6-8 nodes; each program is generated twice (determinism), compiled, and validated on its inputs: " +
 			"every structurally distinct record (nil/non-nil x list length 0,1,2; cap 150) alone and together at page sizes 1, 2, 1000 and in 3 batches, plus seeded random multi-row-group files, through the C02, C03 and C01 monitors; " +
 			"a failing program is a disagreement, matched against known_findings.json by (shape signature, failure kind); distinct = shape signature; non-trivial = shape has a group or an optional/repeated leaf",
 		EvalCounter:  "cases",
@@ -239,6 +239,54 @@ func init() {
 			return out
 		},
 		Custom: customC05,
+	})
+	addSpec(&Spec{ID: "C14", Title: "excluded fields are inert and embedding equals inlining", Level: "translation_validation",
+		Rule: "programs = base shapes from the C05 universe that have no C05 finding (quick 150 with <= 4 nodes, thorough 500 with <= 5 nodes) and their decorated variants: an excluded field (rotating over 16 forms: lower-case, blank, underscore, " +
+			"non-ASCII lower-case, unexported map/pointer-to-struct, parquet:\"-\" on string/map/chan/func/time.Time/slice/interface, other tag keys before/after) inserted at a position of a struct at any nesting level, one variant with a field at every position, " +
+			"and variants in which a contiguous run of sibling fields is moved into an embedded struct (quick: 2+1+2 variants per base; thorough: every position and every run); " +
+			"oracle = files byte-identical to the base's for the same records (3 configurations), excluded fields (filled with junk before Add) zero after reading into a fresh struct, values read back; distinct = (base, decoration); non-trivial = decoration below the root or at every position",
+		EvalCounter:  "cases",
+		PrivateCache: true,
+		TimeoutQuick: 1800, TimeoutThor: 7200,
+		RequireFn: func(r *Run) []string {
+			var out []string
+			if r.Replay != nil {
+				return nil
+			}
+			for _, f := range []string{"lower", "blank", "underscore", "nonascii_lower", "lower_map", "dash", "dash_map", "dash_chan", "dash_func", "dash_time", "dash_json_before", "dash_json_after"} {
+				if r.M.Counters["form_deep_"+f] == 0 {
+					out = append(out, "excluded-field form "+f+" was never applied below the root")
+				}
+			}
+			if r.M.Counters["decor_embed"] == 0 || r.M.Counters["pairs_compared"] == 0 {
+				out = append(out, "no embedding variant / no pair compared")
+			}
+			return out
+		},
+		Custom: customC14,
+	})
+	addSpec(&Spec{ID: "C15", Title: "a struct regenerated from a file reads that file back faithfully", Level: "translation_validation",
+		Rule: "programs = every non-repeated struct shape (leaf types cycling over int32, int64, float32, float64, bool, string; uniquely named groups; half of them with lower-case column tags) with <= 4 nodes (quick, 258) or <= 5 nodes plus 700 six-node shapes (thorough), " +
+			"minus structures listed as C05 findings; three stages: the generated writer writes 3 files per shape (structural enumeration, extremes, random multi-row-group), parquetgen -parquet regenerates struct + reader from the first file, " +
+			"the regenerated reader reads all three files; oracle = regenerated struct has the same column paths, nesting, optionality and physical types (by reflection under the README mapping) and returns exactly the written values; distinct = shape signature; non-trivial = shape has a group",
+		EvalCounter:  "cases",
+		PrivateCache: true,
+		TimeoutQuick: 1800, TimeoutThor: 7200,
+		RequireFn: func(r *Run) []string {
+			if r.Replay != nil {
+				return nil
+			}
+			var out []string
+			if r.M.Counters["programs_clean_nested"] == 0 {
+				out = append(out, "no nested shape went through all three stages")
+			}
+			acc := r.M.Counters["programs_run"] + r.M.Counters["kind_regen_fail"] + r.M.Counters["kind_compile_fail"]
+			if acc != r.M.Counters["programs_enumerated"] {
+				out = append(out, fmt.Sprintf("%d programs accounted for of %d enumerated", acc, r.M.Counters["programs_enumerated"]))
+			}
+			return out
+		},
+		Custom: customC15,
 	})
 }
 
